@@ -152,7 +152,8 @@ def strategy_(draw, tier):
       max_nodes=8, min_nodes=2, leaf_profile='any_enum', bts=('Config', 'Config', 'Partial'),
       kinds=['B', 'B', 'B', 'list', 'tuple', 'dict', 'kdict', 'Bpos', 'AFP', 'set', 'nt',
              # further node kinds of the shared generator that this check's oracle handles (each once)
-             'box', 'mdict', 'fset', 'ltuple', 'ntuple', 'Bmut', 'Bmut1', 'Bmutnest', 'Bpo', 'Bpo3', 'Bdc', 'Bempty', 'holder', 'dcinst', 'Bclash'],
+             'box', 'mdict', 'fset', 'ltuple', 'ntuple', 'Bmut', 'Bmut1', 'Bmutnest', 'Bpo', 'Bpo3', 'Bdc', 'Bempty', 'holder', 'dcinst', 'Bclash',
+             'ddict', 'odict', 'Bdictcfg'],
       fns=['things:f2', 'things:h1', 'things:Base', 'things:LeafCls', 'things:kwnames', 'things:Lambda'],
       root_kinds=['B'], p_alias=0.8, allow_copyof=False, tags=True))
   r = draw(st.floats(0, 1))
@@ -378,6 +379,12 @@ def known_features(gen, root, has_tags, sub_fixtures):
     out.append(gen + ':shared-argfactory')
   if gen == 'auto_config_codegen' and _tagged_argfactory_arg(root):
     out.append('auto_config_codegen:tagged-argfactory-argument')
+  if any(isinstance(v, dict) and type(v) is not dict for _, v in C.walk(root)):
+    # dict subclasses (defaultdict, OrderedDict) are emitted as plain dict displays
+    out.append(gen + ':dict-subclass-value')
+  if any(type(v).__name__ in ('DictConfig', 'NamespaceConfig') for _, v in C.walk(root)):
+    # the experimental Config subclasses are emitted as calls their constructors do not accept
+    out.append(gen + ':dictconfig-node')
   if any(C.is_namedtuple(v) for _, v in C.walk(root)):
     # named tuples are emitted as plain tuple displays
     out.append(gen + ':namedtuple-value')
